@@ -271,6 +271,10 @@ def write_replay_file(ctx, job, desc, script, outputs, extra=None):
 
 def do_replay_file(path):
     doc = json.load(open(path))
+    if doc.get("kind") == "c16":
+        sys.path.insert(0, os.path.join(VERIF, "c16"))
+        import check_c16
+        return check_c16.replay_file(doc)
     ctx = Ctx(doc["property"], "quick", 0)
     try:
         rc_all = 0
